@@ -52,7 +52,15 @@ JudgeV(o) ==
        (IF o.errlen = 0 THEN V("viol", "runner-error-without-text", -1)
         ELSE IF HasTag(o, "start") THEN V("viol", "runner-error-for-a-program-that-ran", -1)
         ELSE V("setup", "not-launched", -1))
-  ELSE IF e.k \notin {"exit", "signal"} THEN V("model", "end-unknown", -1)
+  ELSE IF o.limited /\ ~HasTag(o, "start") /\ o.status = StMLE /\ o.mem_kib > o.ml_kib THEN
+       \* the bound is below the image the child was forked from: verdict before the program ran
+       V("vacuous", "bound-below-the-runner's-own-size", -1)
+  ELSE IF e.k \notin {"exit", "signal"} THEN
+       \* a limited runner may end the run at any wait event once a measurement is above its bound
+       IF o.limited /\ HasTag(o, "start")
+          /\ o.status = ExpectedStatus(TRUE, o.time_us, o.mem_kib, o.tl_us, o.ml_kib, ExitEnd(0))
+          /\ o.status \in {StMLE, StTLE}
+       THEN V("ok", "", -1) ELSE V("model", "end-unknown", -1)
   ELSE LET exp == ExpectedStatus(o.limited, o.time_us, o.mem_kib, o.tl_us, o.ml_kib, e)
            wit == HasTag(o, "utime_us") /\ HasTag(o, "maxrss_kib") IN
        \* the scenario must exercise what its name says, otherwise the run proves nothing
@@ -63,6 +71,9 @@ JudgeV(o) ==
        \* the runner's measurements can not be below what the program saw itself before it ended
        ELSE IF wit /\ (o.mem_kib < TagVal(o, "maxrss_kib") \/ o.time_us < TagVal(o, "utime_us"))
             THEN V("viol", "measurement-below-the-program's-own", -1)
+       \* property layer: the program's own figures exceed the bound => the limit verdict
+       ELSE IF o.limited /\ wit /\ TagVal(o, "maxrss_kib") > o.ml_kib /\ o.status # StMLE THEN V("viol", "memory-bound-exceeded-not-reported", StMLE)
+       ELSE IF o.limited /\ wit /\ TagVal(o, "utime_us") > o.tl_us /\ o.status \notin {StTLE, StMLE} THEN V("viol", "time-bound-exceeded-not-reported", StTLE)
        ELSE IF o.status # exp THEN V("viol", "wrong-status", exp)
        ELSE IF exp = Classify(e).status /\ ExitPinned(exp) /\ o.exit # e.n THEN V("viol", "wrong-exit-value", exp)
        ELSE V("ok", "", exp)
